@@ -12,7 +12,7 @@ import re
 from gen import irgen
 from vlib import core, passlib
 
-COQ_TARGETS = ["Props/C06.vo", "Model/Spec06.vo"]
+COQ_TARGETS = ["Props/C06.vo", "Model/Spec06.vo", "Proofs/ChainPresProofs.vo"]
 PROPS = "Props/C06.v"
 TRUSTED = [
     "normal-form predicates coq/Model/NF.v (hint payloads are excluded: they keep the original union by design)",
@@ -69,8 +69,24 @@ def regen(ctx):
     core.write_if_changed(os.path.join(core.COQ, "Gen", "Chains_gen.v"), "\n".join(lines) + "\n")
 
 
+# the hypothesis of the chain theorems, evaluated on the input of each case (go, python; java only has a theorem
+# for the chain without its last pass)
+TAME_DEF = """Definition case_tame (c : nfcase) : bool :=
+  let '(lang, (input, _, outcome, _)) := c in
+  match outcome with
+  | Ok _ => if String.eqb lang "go" then tame_go input else if String.eqb lang "python" then tame_python input else false
+  | _ => false
+  end.
+"""
+
+
 def nested_case(rng, depth, lang):
-    g = irgen.IRGen(rng, max_depth=depth, features={"resolving": True, "acyclic_aliases": True, "twins": 0.35})
+    feats = {"resolving": True, "acyclic_aliases": True, "twins": 0.35}
+    if rng.random() < 0.35:
+        # inputs inside the fragment of the chain theorems (Props/C06.v nf_<lang>_partial): the real chain's
+        # output must have NO violation there, known findings or not
+        feats = {"resolving": True, "acyclic_aliases": True, "chain": True, "tame": True}
+    g = irgen.IRGen(rng, max_depth=depth, features=feats)
     return {"schemas": g.schemas(), "passes": [], "lang": lang}
 
 
@@ -86,7 +102,8 @@ def offenders_of(ctx, tag, lang, outcome):
 
 def object_text(outcome, pkg, name):
     # the object ends with `<type>) "pkg" "name"))`; a self reference `(TRef A0 "pkg" "name")` is not preceded by `) `
-    m = re.search(r'\("%s", \(mkObject "%s".*?\) "%s" "%s"\)\)' % (re.escape(name), re.escape(name), re.escape(pkg), re.escape(name)), outcome)
+    # (the SelfRef printed at the end may differ from the object's package/name)
+    m = re.search(r'\("%s", \(mkObject "%s".*?\) "[^"]*" "[^"]*"\)\)' % (re.escape(name), re.escape(name)), outcome)
     return m.group(0) if m else ""
 
 
@@ -124,6 +141,8 @@ def input_features(job):
                     bs = t.get("branches", [])
                     if bs and all(b.get("k") == "scalar" for b in bs) and len({b.get("sk") for b in bs}) == 1:
                         feats.add("single-kind-scalar-union")
+                    if len(bs) != 2 and any(b.get("k") == "scalar" and b.get("sk") == "null" for b in bs):
+                        feats.add("null-in-wide-union")      # = null_in_wide_union of Proofs/ChainPresProofs.v
                 if t.get("k") == "inter":
                     if any(x.get("k") in ("struct", "disj") for b in t.get("branches", []) for x in _walk_types(b)):
                         feats.add("struct-or-union-inside-intersection")
@@ -139,6 +158,8 @@ def cause_of(lang, violation, objtext, name, input_names, input_alias_names, fea
             return "union-inside-union-branch"
         if "struct-or-union-inside-intersection" in feats:
             return "union-inside-intersection"
+        if violation == "T-or-null-union" and "null-in-wide-union" in feats:
+            return "wide-union-with-null-shrunk-after-the-null-pass"
         if created:
             return "union-inside-object-created-by-chain"
         return "other"
@@ -204,16 +225,17 @@ def run(ctx, verdict, replay=None, model_ok=True):
     def do(k):
         ids = shards[k]
         cases = "[" + ";\n".join('("%s", %s)' % (jobs[i]["lang"], passlib.case_term(results[i])) for i in ids) + "]"
-        pre = passlib.PREAMBLE % "Model.Spec06" + "Definition cases : list nfcase :=\n%s.\n" % cases
+        pre = passlib.PREAMBLE % "Model.Spec06 Proofs.ChainPresProofs" + TAME_DEF + "Definition cases : list nfcase :=\n%s.\n" % cases
         r = core.coq_eval_lists(ctx, "cases_C06_%d" % k, pre, [
             ("NF", "indices case_nf_bad cases"), ("MM", "indices case_chain_mismatch cases"),
             ("UM", "indices case_chain_unmodelled cases"), ("FL", "indices case_chain_failed cases"),
-            ("AL", "indices (fun c => andb (case_chain_mismatch c) (case_chain_alias c)) cases")])
+            ("AL", "indices (fun c => andb (case_chain_mismatch c) (case_chain_alias c)) cases"),
+            ("TM", "indices case_tame cases"), ("TV", "indices (fun c => andb (case_tame c) (case_nf_bad c)) cases")])
         return {kk: [ids[x] for x in v] for kk, v in r.items()}
 
     parts = core.parallel(do, list(range(len(shards))))
-    ev = {k: sorted(x for p in parts for x in p[k]) for k in ("NF", "MM", "UM", "FL", "AL")}
-    ctx.log("coq evaluated: nf_bad=%d mismatch=%d (pointer-sharing-sensitive: %d) unmodelled=%d chain_failed=%d" % (len(ev["NF"]), len(ev["MM"]), len(ev["AL"]), len(ev["UM"]), len(ev["FL"])))
+    ev = {k: sorted(x for p in parts for x in p[k]) for k in ("NF", "MM", "UM", "FL", "AL", "TM", "TV")}
+    ctx.log("coq evaluated: nf_bad=%d mismatch=%d (pointer-sharing-sensitive: %d) unmodelled=%d chain_failed=%d" % (len(ev["NF"]), len(ev["MM"]), len(ev["AL"]), len(ev["UM"]), len(ev["FL"])) + " tame=%d tame_and_violating=%d" % (len(ev["TM"]), len(ev["TV"])))
     explained = set()
     budget = 40
     for i in sorted(ev["NF"], key=lambda i: len(json.dumps(jobs[i]))):
@@ -232,6 +254,13 @@ def run(ctx, verdict, replay=None, model_ok=True):
                              {"job": jobs[i], "offending_object": "%s.%s" % (pkg, name), "observed_outcome": results[i]["outcome"][:5000],
                               "predicate": 'nf_violations "%s" (output of the real chain) = []  (Model/NF.v)' % jobs[i]["lang"]})
         explained.add(i)
+    # inside the proved fragment nothing is a known finding
+    for i in ev["TV"][:5]:
+        path = core.write_replay(ctx, "failing-input", {"signature": {"lang": jobs[i]["lang"], "violation": "inside-tame-fragment", "cause": "theorem-hypothesis-holds"},
+                                                       "job": jobs[i], "observed_outcome": results[i]["outcome"][:5000],
+                                                       "predicate": "tame_<lang> input = true -> nf_violations lang (real chain output) = []  (Props/C06.v nf_<lang>_partial)"})
+        verdict.violations.append((path, ""))
+        ctx.log("normal-form violation INSIDE the proved fragment (tame input): %s" % jobs[i]["lang"])
     explained = set(ev["AL"])   # pointer-sharing-sensitive sequences: the functional model does not decide them
     unexplained = [{"job": jobs[i], "observed": results[i]["outcome"][:3000]} for i in ev["MM"] if i not in explained]
     langs = {}
@@ -258,6 +287,8 @@ def run(ctx, verdict, replay=None, model_ok=True):
         "mismatches_model_vs_impl": len(ev["MM"]),
         "mismatches_on_pointer_sharing_sensitive_sequences_not_judged": len(ev["AL"]),
         "nf_violation_cases": len(ev["NF"]),
+        "cases_inside_the_proved_fragment_tame": len(ev["TM"]),
+        "violations_inside_the_proved_fragment": len(ev["TV"]),
         "traces_validated_against_impl": len(idx) - len(ev["MM"]) - len(ev["UM"]),
     }
     return {"coverage": cov, "unexplained_mismatches": unexplained,
